@@ -18,9 +18,38 @@ def faultOf (s : String) : Option Fault :=
     | ["write", k] => k.toNat?.map .write
     | _ => none
 
+/-- interleave the operation lists of the two calls as the schedule says; what is left over follows -/
+def weave : List Bool → List FsOp → List FsOp → List (Bool × FsOp)
+  | _, [], b => b.map (true, ·)
+  | _, a, [] => a.map (false, ·)
+  | [], a, b => a.map (false, ·) ++ b.map (true, ·)
+  | false :: sch, x :: a, b => (false, x) :: weave sch a b
+  | true :: sch, a, y :: b => (true, y) :: weave sch a b
+
+/- `C17 P <n0> chunk.. <n1> chunk.. <m> sched.. # D0:<hex|~|-> D1:<hex|~|->`: one callback object, two records at once -/
+def handleP (ts : Toks) : String :=
+  let (inp, real) := splitAt "#" ts
+  match listOf hexTok inp with
+  | some (c0, rest) =>
+    match listOf hexTok rest with
+    | some (c1, rest2) =>
+      match listOf nat rest2 with
+      | some (sch, []) =>
+        let ops := weave (sch.map (· != 0)) (outputToFile c0 .none) (outputToFile c1 .none)
+        let r := applyAll2 ({ dest := none }, { dest := none }) ops
+        let tag (i : String) (d : Option Bytes) : String := "D" ++ i ++ ((showDest d).drop 1)
+        let model := [tag "0" r.1.dest, tag "1" r.2.dest]
+        let want := [tag "0" (some (full c0)), tag "1" (some (full c1))]
+        let holds := real == want
+        reply (model == real) holds (if holds then "ok" else "simultaneous-calls-of-one-callback-disturb-each-other model=" ++ " ".intercalate model)
+      | _ => reply false false "parse-error"
+    | none => reply false false "parse-error"
+  | none => reply false false "parse-error"
+
 def handle (ts : Toks) : String :=
   let (inp, real) := splitAt "#" ts
   match inp with
+  | "P" :: rest => handleP (rest ++ ["#"] ++ real)
   | prog :: oldT :: rest =>
     let old? : Option (Option Bytes) := if oldT == "~" then some none else (unhex (if oldT == "-" then "" else oldT)).map some
     match old?, listOf hexTok rest with
